@@ -37,6 +37,15 @@ fn main() {
         std::process::exit(tools::main(&args[1..]));
     }
     if args[0] == "--worker" {
+        // keep freed memory in the process (one arena, no mmap for big blocks, no trimming): repeated evaluations of
+        // equally sized inputs then run on already-touched pages (matters for CPU-time measurements, e.g. C02)
+        // SAFETY: called before any other thread exists
+        unsafe {
+            libc::mallopt(libc::M_ARENA_MAX, 1);
+            libc::mallopt(libc::M_MMAP_MAX, 0);
+            libc::mallopt(libc::M_TRIM_THRESHOLD, i32::MAX);
+            libc::mallopt(libc::M_TOP_PAD, 64 << 20);
+        }
         let id = args.get(1).cloned().unwrap_or_default();
         let ctx = RunCtx { tier: Tier::Quick, seed, verif_root };
         let _ = &ctx;
